@@ -734,3 +734,84 @@ inline Labels label(const Pos& p, const std::vector<ref::Move>& legal)
 }
 
 }  // namespace gen
+
+namespace gen
+{
+// G-game: a long legal game with phases (normal play, reversible shuffling that builds repetitions and
+// high clocks, capture hunts that cross the insufficient-material boundary).
+inline Root gen_game(Tape& t, Report* rep, int maxPlies, const Pos* forcedStart = nullptr)
+{
+    Root r;
+    r.start = forcedStart ? *forcedStart : gen_start(t, rep);
+    r.kind = "game";
+    ref::Game g(r.start);
+    int plies = maxPlies > 0 ? int(t.choose(uint32_t(maxPlies + 1))) : 0;
+    std::vector<ref::Move> ms;
+    int phase = 0, phaseLeft = 0;
+    for (int i = 0; i < plies; ++i)
+    {
+        ref::legal_moves(g.cur, ms);
+        if (ms.empty()) break;
+        if (phaseLeft <= 0)
+        {
+            phase = t.weighted({4, 3, 2, 1});  // 0 normal, 1 shuffle, 2 capture hunt, 3 quiet non-pawn moves (clock run-up)
+            phaseLeft = 1 + int(t.choose(phase == 1 ? 16 : (phase == 3 ? 60 : 12)));
+        }
+        --phaseLeft;
+        int idx = -1;
+        const ref::Move* lastOwn = g.moves.size() >= 2 ? &g.moves[g.moves.size() - 2] : nullptr;
+        if (phase == 1 && lastOwn)
+        {
+            for (size_t k = 0; k < ms.size(); ++k)
+                if (ms[k].from == lastOwn->to && ms[k].to == lastOwn->from && !ms[k].promo &&
+                    ref::lower(g.cur.b[ms[k].from]) != 'p' && !ref::is_capture(g.cur, ms[k]))
+                    idx = int(k);
+        }
+        if (idx < 0 && (phase == 1 || phase == 3))
+        {
+            std::vector<int> cand;
+            for (size_t k = 0; k < ms.size(); ++k)
+                if (ref::lower(g.cur.b[ms[k].from]) != 'p' && !ref::is_capture(g.cur, ms[k]) && !ref::is_castle(g.cur, ms[k]))
+                    cand.push_back(int(k));
+            if (!cand.empty()) idx = cand[t.choose(uint32_t(cand.size()))];
+        }
+        if (idx < 0 && phase == 2)
+        {
+            std::vector<int> cand;
+            for (size_t k = 0; k < ms.size(); ++k)
+                if (ref::is_capture(g.cur, ms[k])) cand.push_back(int(k));
+            if (!cand.empty()) idx = cand[t.choose(uint32_t(cand.size()))];
+        }
+        if (idx < 0) idx = pick_move(t, g.cur, ms, lastOwn);
+        ref::Pos nxt = ref::make(g.cur, ms[idx]);
+        if (nxt.half > 150) break;
+        std::string k = ref::key4(nxt);
+        int occ = 1;
+        for (auto& kk : g.keys) occ += kk == k;
+        if (occ > 5)
+        {
+            // try any other move that keeps the history legal
+            bool found = false;
+            for (size_t j = 0; j < ms.size() && !found; ++j)
+            {
+                ref::Pos n2 = ref::make(g.cur, ms[j]);
+                if (n2.half > 150) continue;
+                std::string k2 = ref::key4(n2);
+                int o2 = 1;
+                for (auto& kk : g.keys) o2 += kk == k2;
+                if (o2 <= 5)
+                {
+                    idx = int(j);
+                    found = true;
+                }
+            }
+            if (!found) break;
+            phaseLeft = 0;
+        }
+        g.play(ms[idx]);
+    }
+    r.moves = g.moves;
+    r.cur = g.cur;
+    return r;
+}
+}  // namespace gen
